@@ -264,4 +264,90 @@ theorem segment_records (s : Spec.Wal.WalSegment) (hs : s.WF) (hv : isValidMagic
   unfold Spec.Wal.WalSegment.layout
   rw [this]
 
+/-! ## The layout places every record, once and in order -/
+
+def recsLen (rs : List Spec.Wal.WalRecord) : Nat := (rs.map fun r => Spec.Wal.align8 r.totLen).sum
+
+theorem fillPage_conserve (addr : Nat) (rs : List Spec.Wal.WalRecord) (p : Nat) (hp : p ≤ 8192) (hp8 : p % 8 = 0) :
+    (fillPage addr p rs).placed.map Placed.record ++ (fillPage addr p rs).rest = rs ∧
+    (((fillPage addr p rs).carry ≠ [] ∨ (fillPage addr p rs).rest ≠ []) →
+      Spec.Wal.align8 (fillPage addr p rs).carry.length + recsLen (fillPage addr p rs).rest + (8192 - p) = recsLen rs) := by
+  induction rs generalizing p with
+  | nil =>
+    unfold fillPage
+    refine ⟨rfl, ?_⟩
+    intro h; rcases h with h | h <;> exact absurd rfl h
+  | cons r rs ih =>
+    have h24 := totLen_ge r
+    have hlen := encRecord_length r
+    unfold fillPage
+    by_cases h1 : p + Spec.Wal.align8 r.totLen ≤ 8192
+    · simp only [h1, if_true]
+      have hA8 : Spec.Wal.align8 r.totLen % 8 = 0 := by simp only [Spec.Wal.align8]; omega
+      obtain ⟨i1, i2⟩ := ih (p + Spec.Wal.align8 r.totLen) h1 (by omega)
+      refine ⟨?_, ?_⟩
+      · simp only [List.map_cons, Placed.record, List.cons_append, i1]
+      · intro h
+        have := i2 h
+        simp only [recsLen, List.map_cons, List.sum_cons] at this ⊢
+        omega
+    · simp only [h1, if_false]
+      by_cases h2 : p ≥ 8192
+      · simp only [h2, if_true]
+        refine ⟨rfl, fun _ => ?_⟩
+        simp [Spec.Wal.align8]; omega
+      · simp only [h2, if_false]
+        have hn : 8192 - p < r.totLen := by simp only [Spec.Wal.align8] at h1; omega
+        have hcl : ((encRecord r).drop (8192 - p)).length = r.totLen - (8192 - p) := by rw [List.length_drop, hlen]
+        by_cases h3 : 8192 - p ≥ 24
+        · simp only [h3, if_true]
+          refine ⟨rfl, fun _ => ?_⟩
+          simp only [hcl, recsLen, List.map_cons, List.sum_cons, Spec.Wal.align8]; omega
+        · simp only [h3, if_false]
+          refine ⟨rfl, fun _ => ?_⟩
+          simp only [hcl, recsLen, List.map_cons, List.sum_cons, Spec.Wal.align8]; omega
+
+theorem layoutPages_complete (s : Spec.Wal.WalSegment) (n k : Nat) (carry : Bytes) (rs : List Spec.Wal.WalRecord)
+    (hfuel : (Spec.Wal.align8 carry.length + recsLen rs) / 8 < n) :
+    (layoutPages s n k carry rs).placed.map Placed.record = rs := by
+  induction n generalizing k carry rs with
+  | zero => omega
+  | succ n ih =>
+    have hk : hdrSize k = 24 ∨ hdrSize k = 40 := by unfold hdrSize; by_cases h0 : k = 0 <;> simp [h0]
+    unfold layoutPages
+    simp only []
+    by_cases hcap : Spec.Wal.align8 carry.length > 8192 - hdrSize k
+    · rw [if_pos hcap]
+      simp only []
+      apply ih
+      rw [List.length_drop]
+      simp only [Spec.Wal.align8] at hcap hfuel ⊢; omega
+    · rw [if_neg hcap]
+      obtain ⟨c1, c2⟩ := fillPage_conserve (s.startAddr + 8192 * k) rs (hdrSize k + Spec.Wal.align8 carry.length) (by omega)
+        (by simp only [Spec.Wal.align8]; omega)
+      by_cases hfin : ((fillPage (s.startAddr + 8192 * k) (hdrSize k + Spec.Wal.align8 carry.length) rs).carry.isEmpty &&
+          (fillPage (s.startAddr + 8192 * k) (hdrSize k + Spec.Wal.align8 carry.length) rs).rest.isEmpty) = true
+      · rw [if_pos hfin]
+        simp only [Bool.and_eq_true, List.isEmpty_iff] at hfin
+        simp only []
+        rw [hfin.2, List.append_nil] at c1
+        exact c1
+      · rw [if_neg hfin]
+        simp only []
+        have hne : (fillPage (s.startAddr + 8192 * k) (hdrSize k + Spec.Wal.align8 carry.length) rs).carry ≠ [] ∨
+            (fillPage (s.startAddr + 8192 * k) (hdrSize k + Spec.Wal.align8 carry.length) rs).rest ≠ [] := by
+          simp only [Bool.and_eq_true, List.isEmpty_iff] at hfin
+          by_cases hc0 : (fillPage (s.startAddr + 8192 * k) (hdrSize k + Spec.Wal.align8 carry.length) rs).carry = []
+          · exact .inr (fun hr => hfin ⟨hc0, hr⟩)
+          · exact .inl hc0
+        have hc := c2 hne
+        rw [List.map_append, ih (k + 1) _ _ (by omega)]
+        exact c1
+
+theorem layout_complete (s : Spec.Wal.WalSegment) : s.layout.placed.map Placed.record = s.records := by
+  unfold Spec.Wal.WalSegment.layout
+  apply layoutPages_complete
+  have : s.streamLen = Spec.Wal.align8 s.pre.length + recsLen s.records := rfl
+  omega
+
 end PgVerif.Proofs.Wal
